@@ -2,6 +2,7 @@
 //! Not a general Rust→Lean translator: a closed list of shapes; anything else is
 //! reported as `UNTRANSLATABLE <file>:<item>: <reason>` and the run exits 1.
 mod util;
+mod lifecycle;
 mod amount;
 mod bootcache;
 mod quote;
@@ -9,6 +10,7 @@ mod wire;
 mod parsers;
 mod store;
 mod register;
+mod distance;
 mod fetcher;
 mod quorum;
 mod upgrade;
@@ -25,12 +27,14 @@ fn main() {
     std::fs::create_dir_all(&outdir).expect("outdir");
     let gens: Vec<(&str, fn(&PathBuf) -> Result<String, String>)> = vec![
         ("Amount", amount::generate),
+        ("Lifecycle", lifecycle::generate),
         ("BootCache", bootcache::generate),
         ("Quote", quote::generate),
         ("Wire", wire::generate),
         ("Parsers", parsers::generate),
         ("Store", store::generate),
         ("Register", register::generate),
+        ("Distance", distance::generate),
         ("Fetcher", fetcher::generate),
         ("Quorum", quorum::generate),
         ("Upgrade", upgrade::generate),
